@@ -517,7 +517,7 @@ pub fn run(case: &WatchCase, tag: u64) -> Outcome {
     cx::clear_hooks();
     cx::install_sorted_enumeration();
     pico::verif_hooks::set_capacity_override(std::num::NonZeroUsize::new(case.capacity.max(1)));
-    for d in [0usize, 1, 2, 3] {
+    for d in [0usize, 1, 2, 3, 6] {
         let _ = std::fs::create_dir_all(w.abs(DIRS[d]));
     }
     for (p, s) in &case.initial {
@@ -623,7 +623,7 @@ pub fn generate(seed: u64) -> WatchCase {
     let mut initial = Vec::new();
     if !rng.chance(1, 5) {
         for _ in 0..rng.range(1, 4) {
-            initial.push((*rng.pick(&[0usize, 1, 2, 4, 5, 6, 7, 8, 15]), *rng.pick(&[0usize, 2, 3, 4, 5, 6, 7, 12, 13, 11])));
+            initial.push((*rng.pick(&[0usize, 1, 2, 4, 5, 6, 7, 8, 15, 16, 17]), *rng.pick(&[0usize, 2, 3, 4, 5, 6, 7, 12, 13, 11])));
         }
     }
     let compile_ms: Vec<u16> = (0..3).map(|_| *rng.pick(&[0u16, 0, 5, 40, 150, 300])).collect();
@@ -640,12 +640,12 @@ pub fn generate(seed: u64) -> WatchCase {
     let mut steps = Vec::new();
     for _ in 0..n {
         let after_ms = *rng.pick(&[0u16, 1, 3, 10, 30, 60, 90, 120, 200, 400]);
-        let path = if non_source && rng.chance(1, 4) { rng.range(9, 14) as usize } else { *rng.pick(&[0usize, 1, 2, 3, 4, 5, 6, 7, 8, 15]) };
+        let path = if non_source && rng.chance(1, 4) { *rng.pick(&[9usize, 10, 11, 12, 13, 14, 18, 18]) } else { *rng.pick(&[0usize, 1, 2, 3, 4, 5, 6, 7, 8, 15, 16, 17]) };
         let step = match rng.weighted(&w) {
             0 if atomic_saves && rng.chance(1, 3) => WStep::Edit { op: EdOp::AtomicSave(path, crate::session::gen_snippet(&mut rng)), after_ms },
             0 => WStep::Edit { op: EdOp::Write(path, crate::session::gen_snippet(&mut rng)), after_ms },
             1 => WStep::Edit { op: EdOp::Delete(path), after_ms },
-            2 => WStep::Edit { op: EdOp::Rename(path, *rng.pick(&[0usize, 1, 2, 3, 4, 5, 6, 7, 8, 15, 9, 14])), after_ms },
+            2 => WStep::Edit { op: EdOp::Rename(path, *rng.pick(&[0usize, 1, 2, 3, 4, 5, 6, 7, 8, 15, 9, 14, 16, 17])), after_ms },
             3 => WStep::Edit { op: EdOp::MkDir(rng.below(DIRS.len() as u64) as usize), after_ms },
             4 => WStep::Edit { op: EdOp::RmDirAll(rng.below(DIRS.len() as u64) as usize), after_ms },
             5 => WStep::Edit { op: EdOp::RenameDir(rng.below(DIRS.len() as u64) as usize, rng.below(DIRS.len() as u64) as usize), after_ms },
